@@ -20,7 +20,7 @@ ASSUMPTIONS = [
     "AES of the model is OpenSSL libcrypto (EVP, CBC, zero IV), cross-checked against a from-the-definition AES in C16",
     "the writer's single trailing empty line after the hex block is allowed (not part of the stated layout, not contradicting it)",
 ]
-REQUIRED_CLASSES = ["offset>65535", "comps>=2", "bec2.blocks>=2", "bec2.ecc", "enc-component", "route=path", "entries>255"]
+REQUIRED_CLASSES = ["offset>65535", "comps>=2", "bec2.blocks>=2", "bec2.ecc", "enc-component", "route=path", "entries>255", "bec2.unknown-tag-block"]
 
 
 def _model_comps(case, key):
@@ -135,11 +135,14 @@ def check_bec2(case, rec):
         hblocks, pos = M.parse_bec2_header(got)
     except M.Reject as e:
         raise Violation("BEC2 header is not signature + TLV blocks + 00 00: %s" % e)
-    if [t for t, _ in hblocks] != [sut.TAG_OF[b["kind"]] for b in blocks]:
+    if [t for t, _ in hblocks] != [sut.tag_of(b) for b in blocks]:
         raise Violation("header block tags %r, object blocks %r" % ([t for t, _ in hblocks], [b["kind"] for b in blocks]))
     eph = list(rk.scalars)
     for (tag, val), b in zip(hblocks, blocks):
-        if b["kind"] == "cust":
+        if b["kind"] == "unknown":
+            rec.cls("bec2.unknown-tag-block")
+            _cmp("pass-through block (unknown tag %d)" % tag, val, b["value"])
+        elif b["kind"] == "cust":
             _cmp("customer-key block", val, M.custkey_block(b["crypto_key"], key, b.get("customer_key"), 0))
         elif b["kind"] == "upd":
             _cmp("update block", val, M.update_block(b["code"], key, b["version"]))
@@ -204,7 +207,7 @@ def strat_bec2(tier):
         comments=S.comment_list(3),
         comps=st.lists(comp, max_size=4),
         key=S.session_key(allow_default=False),
-        blocks=S.auth_blocks(),
+        blocks=S.auth_blocks(allow_unknown=True),
         route=st.sampled_from(["stream", "path"]),
     ))
 
